@@ -487,6 +487,26 @@ void scan_deps(const std::string& orig_portname, std::string cur_portname,
 
     // this port and all parent ports can be enabled by another port, so check them all
     const std::string scanned_port = cur_portname; // (cur_portname loses its tail below)
+
+    // a directory can also be enabled from inside: rSelf(..., rEnabledBy(x))
+    // names the port x of the directory's own ports
+    auto self_edge = [&](const Ports& inner, const std::string& dir)
+    {
+        const Port* self = inner["self:"];
+        const char* enabled_by = self ? self->meta()["enabled by"] : NULL;
+        std::string abs = enabled_by ? rel2abs(enabled_by, dir) : std::string();
+        // (the enabling port lives inside the directory it enables: it does
+        //  not depend on itself, neither when it has a line nor when it is
+        //  scanned because it has none)
+        if(enabled_by && abs != orig_portname && abs != scanned_port)
+        {
+            auto itr = message_map.find(abs);
+            if(itr != message_map.end())
+                itr->second->dependees.push_back(std::distance(message_v.data(),(const message_t*)message_map.at(orig_portname)));
+            else
+                scan_deps(orig_portname, abs, ports, message_map, message_v);
+        }
+    };
     bool is_leaf_level = true;
     for(std::string::size_type last_slash;
         cur_portname.size() && (last_slash = cur_portname.find_last_of('/')) != std::string::npos;
@@ -497,26 +517,8 @@ void scan_deps(const std::string& orig_portname, std::string cur_portname,
         const Port* port = ports.apropos(is_leaf_level
                                          ? cur_portname.c_str()
                                          : (cur_portname + '/').c_str());
-        // a directory can also be enabled from inside: rSelf(..., rEnabledBy(x))
-        // names the port x of the directory's own ports
         if(!is_leaf_level && port && port->ports)
-        {
-            const Port* self = (*port->ports)["self:"];
-            const char* enabled_by = self ? self->meta()["enabled by"] : NULL;
-            std::string abs = enabled_by ? rel2abs(enabled_by, cur_portname + '/')
-                                         : std::string();
-            // (the enabling port lives inside the directory it enables: it does
-            //  not depend on itself, neither when it has a line nor when it is
-            //  scanned because it has none)
-            if(enabled_by && abs != orig_portname && abs != scanned_port)
-            {
-                auto itr = message_map.find(abs);
-                if(itr != message_map.end())
-                    itr->second->dependees.push_back(std::distance(message_v.data(),(const message_t*)message_map.at(orig_portname)));
-                else
-                    scan_deps(orig_portname, abs, ports, message_map, message_v);
-            }
-        }
+            self_edge(*port->ports, cur_portname + '/');
         is_leaf_level = false;
         if(port)
         {
@@ -546,6 +548,8 @@ void scan_deps(const std::string& orig_portname, std::string cur_portname,
             }
         }
     }
+    // the root table itself can be enabled from inside as well
+    self_edge(ports, "/");
 };
 
 int dispatch_printed_messages(const char* messages,
